@@ -35,8 +35,23 @@ abbrev T := Tensor String Nat
 abbrev V := TView String Nat
 abbrev LV := Spec.LazyView String Nat
 
+/-- an `f64` element of the degenerate-data section, as far as `==` can tell: NaN or a key
+    (`-0` and `0` share a key) -/
+structure FTok where
+  isNan : Bool
+  key : String
+  deriving Repr
+
+/-- the element type's own `==` (IEEE: NaN differs from everything incl. itself, 0 == -0) -/
+def FTok.feq (a b : FTok) : Bool := !a.isNan && !b.isNan && a.key == b.key
+
+def parseFTok (s : String) : FTok :=
+  if s = "nan" then ⟨true, "nan"⟩ else if s = "-0" then ⟨false, "0"⟩ else ⟨false, s⟩
+
 structure State where
   tensor : Option T := none
+  /-- base tensor of the `f64` degenerate-data section -/
+  ftensor : Option (Tensor String FTok) := none
 
 def init : State := {}
 
@@ -366,8 +381,41 @@ def stepOp (t : T) (toks : List String) : String :=
     else "bad-op"
   | _ => "bad-op"
 
+/-- cell by cell `==` of two element lists of equal length -/
+def allFeq (a b : List FTok) : Bool :=
+  a.length == b.length && (a.zip b).all fun p => p.1.feq p.2
+
+/-- Equality and similarity of `f64` tensors under the element type's own (non-reflexive) `==`:
+    the specification evaluated with that relation (same shape and every cell `==`; some
+    ordering of the right operand's names with that property).  There is no code-shaped model
+    The code-shaped model answers with `tensorEqualityBy` / `tensorSimilarityBy` at the same
+    relation (theorems `eqBy_iff`, `eqBy_self_iff`, `similarBy_iff` are for any relation). -/
+def fcmp (l r : Tensor String FTok) : String :=
+  let sl := Spec.materialise (Spec.ofData l.shape l.data)
+  let lr := Spec.ofData r.shape r.data
+  let sr := Spec.materialise lr
+  let eq := decide (sl.shape = sr.shape) && allFeq sl.elems sr.elems
+  let sim := (Spec.perms (r.shape.map (·.1))).any fun names =>
+    decide (Spec.shapeFor r.shape names = l.shape) &&
+      allFeq (Spec.materialise (Spec.reordered lr names)).elems sl.elems
+  both s!"eq={eq} sim={sim}"
+       s!"eq={tensorEqualityBy FTok.feq l.view r.view} sim={tensorSimilarityBy FTok.feq l.view r.view}"
+
 def step (s : State) (toks : List String) : State × String :=
   match toks with
+  | ["@", "f", shapeS, dataS] =>
+    match parseShape shapeS with
+    | some shape =>
+      let t := Tensor.tryFrom shape ((splitComma dataS).map parseFTok)
+      ({ ftensor := t }, if t.isSome then "ok" else panicS)
+    | none => (s, "bad-op")
+  | "fcmp" :: shapeS :: dataS :: _ =>
+    match s.ftensor, parseShape shapeS with
+    | some l, some shape2 =>
+      match Tensor.tryFrom shape2 ((splitComma dataS).map parseFTok) with
+      | some r => (s, fcmp l r)
+      | none => (s, "bad-op")
+    | _, _ => (s, "no-tensor")
   | ["@", "t", shapeS, dataS] =>
     match parseShape shapeS, parseData dataS with
     | some shape, some data =>
